@@ -30,6 +30,8 @@ pub struct Report {
     /// traces (cases) whose implementation result was compared with a reference model
     pub ref_compared: u64,
     pub distinct: HashSet<u64>,
+    /// cases that are distinct by construction of the enumerator and non-trivial by the property's rule
+    pub distinct_count: u64,
     pub samples: Vec<Value>,
     pub violations: Vec<Violation>,
     pub notes: Vec<String>,
@@ -50,6 +52,7 @@ impl Report {
         self.ref_compared += o.ref_compared;
         self.skipped += o.skipped;
         self.distinct.extend(o.distinct);
+        self.distinct_count += o.distinct_count;
         for s in o.samples {
             if self.samples.len() < MAX_SAMPLES {
                 self.samples.push(s);
@@ -94,7 +97,7 @@ impl Report {
             "evaluations": self.evaluations,
             "calls": self.calls,
             "ref_compared": self.ref_compared,
-            "distinct_nontrivial": self.distinct.len(),
+            "distinct_nontrivial": self.distinct.len() as u64 + self.distinct_count,
             "skipped": self.skipped,
             "samples": self.samples,
             "violations": kept,
